@@ -24,6 +24,8 @@ func genExpr(t *rapid.T, depth int) *Expr {
 		e.I = 1 + unif(t, 3, "argI")
 	case "sload":
 		e.I = unif(t, 4, "slot")
+	case "blockhash":
+		e.I = pick(t, []int{1, 1, 2, 3, 6, 257}, "lookBack")
 	case "balance", "extcodesize":
 		e.A = genAddrExpr(t)
 	case "add":
@@ -86,7 +88,20 @@ func genPattern(t *rapid.T) []*Stmt {
 	if second.K == "selfdestruct" && second.Cond < 0 {
 		second.Cond = unif(t, 4, "patSdCond")
 	}
-	switch unif(t, 5, "patKind") {
+	switch unif(t, 6, "patKind") {
+	case 5: // what the contract is told about the block it runs in: recorded, logged and returned
+		ctx := func(label string) *Expr {
+			e := &Expr{K: pick(t, []string{"blockhash", "blockhash", "blockhash", "number", "timestamp", "coinbase", "gaslimit", "difficulty", "basefee", "chainid"}, label)}
+			if e.K == "blockhash" {
+				e.I = pick(t, []int{1, 2, 3, 4, 6, 10, 256, 257}, label+"Back")
+			}
+			return e
+		}
+		return []*Stmt{
+			{K: "sstore", Cond: -1, I: unif(t, 4, "ctxSlot"), E: ctx("ctx1")},
+			{K: "log", Cond: -1, N: 1, E: ctx("ctx2")},
+			{K: "return", Cond: unif(t, 4, "ctxRetCond"), E: ctx("ctx3")},
+		}
 	case 4: // probes: what does the contract see of an account? (also what read-only calls are made for)
 		return []*Stmt{
 			{K: "return", Cond: unif(t, 2, "probeCond"), E: &Expr{K: "balance", A: &Expr{K: "arg", I: 1}}},
